@@ -229,6 +229,7 @@ def d2(ctx: Ctx):
                 file=rel,
                 line=line,
                 facts={"fields": [sorted(f, reverse=True) for f in fields][:12], "sink": items[0][2]},
+                props=["C17"] if dec == "rattoppm" else (["C16", "C17"] if dec in ("mgetoppm", "cm3toppm", "veftopng") else ["C16"]),
             )
 
 
@@ -631,7 +632,7 @@ def d4(ctx: Ctx):
                 msg = f"header announces {wn} x {hn}, the loops write {written!r}{where}: equal only if {' and '.join(unmet)}, which the option validator (check_positive) does not ensure"
                 fb = []
             key = dec if not fb else f"{dec}.{fb[0][len('<file byte '):-1]}"
-            ctx.ob(key, False, msg, file=rel, line=call.lineno, facts=facts, witness=("an option value violating: " + ", ".join(unmet)) if unmet else "")
+            ctx.ob(key, False, msg, file=rel, line=call.lineno, facts=facts, witness=("an option value violating: " + ", ".join(unmet)) if unmet else "", props=["C18"] if unmet else ["C19"])
         if all_ok:
             ctx.ob(dec, True, file=rel, line=call.lineno, facts=last_facts)
 
@@ -774,7 +775,7 @@ def _ordinal_read(fn: ast.FunctionDef, call: ast.Call) -> int:
 # D6 COUNTER-GUARD
 
 
-@rule("D6", "COUNTER-GUARD: a remaining-sample counter cannot be overshot, and a data-driven stop while it is positive fails", ["C19", "C17"], floor=2)
+@rule("D6", "COUNTER-GUARD: a remaining-sample counter cannot be overshot, and a data-driven stop while it is positive fails", ["C19"], floor=2)
 def d6(ctx: Ctx):
     D = decoderfacts(ctx)
     found = 0
